@@ -70,6 +70,25 @@ def inf32 : BitVec 32 := 2139095040#32
 def nan32 : BitVec 32 := 2143289344#32
 
 
+/-! ## Round-to-nearest-even on integers (the level at which `fpack64` is PROVED correct) -/
+
+/-- round `(n + ε) / 2^k` to the nearest integer, ties to even; `ε ∈ (0,1)` iff `sticky`, else `ε = 0`.
+For `k = 0` the value is taken to be `n` (callers never pass `sticky` with `k = 0`). -/
+def rneShift (n k : Nat) (sticky : Bool) : Nat :=
+  if k = 0 then n else
+  if 2^(k-1) < n % 2^k ∨ (n % 2^k = 2^(k-1) ∧ (sticky = true ∨ n / 2^k % 2 = 1)) then n / 2^k + 1 else n / 2^k
+
+/-- `fpack64` specification on a mantissa of bit length `L ≥ 53` (`2^(L-1) ≤ m < 2^L`), value
+`(m + ε)·2^(e-52)`: round to nearest-even to 53 bits (normal range, overflow to Inf) or at the fixed
+quantum 2^-1074 (subnormal range).  The result is the magnitude bit pattern. -/
+def packSpecL (L : Nat) (m : Nat) (e : Int) (st : Bool) : Nat :=
+  let Eu : Int := e + ((L : Int) - 53)
+  if -1022 ≤ Eu then min ((Eu + 1022).toNat * 2^52 + rneShift m (L - 53) st) (2047 * 2^52)
+  else rneShift m (-1022 - e).toNat st
+
+def packSpec64 (m : Nat) (e : Int) (st : Bool) : Nat := packSpecL (Nat.log2 m + 1) m e st
+
+
 /-! ## The reference semantics: IEEE-754 values as rationals and round-to-nearest-even
 
 Used only to STATE the full property (`ieee754_statement` in Props/C05.lean) and in
